@@ -253,12 +253,6 @@ func (h *Handler) SendMessage(ctx context.Context, s *xmpp.Session, r xml.TokenR
 //
 // SendMessageElement is safe for concurrent use by multiple goroutines.
 func (h *Handler) SendMessageElement(ctx context.Context, s *xmpp.Session, payload xml.TokenReader, msg stanza.Message) error {
-	if h.sent == nil {
-		h.m.Lock()
-		h.sent = make(map[string]chan struct{})
-		h.m.Unlock()
-	}
-
 	if msg.ID == "" {
 		msg.ID = attr.RandomID()
 	}
@@ -268,6 +262,9 @@ func (h *Handler) SendMessageElement(ctx context.Context, s *xmpp.Session, paylo
 	// have reached its select yet, or may be gone), and it is never closed.
 	c := make(chan struct{}, 1)
 	h.m.Lock()
+	if h.sent == nil {
+		h.sent = make(map[string]chan struct{})
+	}
 	h.sent[msg.ID] = c
 	h.m.Unlock()
 	verifhook.Yield("receipts.registered")
